@@ -16,7 +16,7 @@
      statement is kept in the comment above them. *)
 From Coq Require Import List ZArith Bool Arith Lia.
 From SC Require Import Base.Res Base.PyList Inst.Heap Inst.ClassTable Inst.Model Inst.Canon
-  Inst.Abs Inst.SpecHelpers Inst.RefineProofs Inst.CopyProofs Inst.CopyStore Inst.RefineMore Inst.RefineMore2 Inst.RefineMore3 Inst.RefineMore4 Inst.RefineMore5 Inst.RefineMore6 Inst.RefineMore7 Inst.RefineMore8 Inst.RefineMore9 Inst.RefineMore10 Inst.RefineMore11.
+  Inst.Abs Inst.SpecHelpers Inst.RefineProofs Inst.CopyProofs Inst.CopyStore Inst.RefineMore Inst.RefineMore2 Inst.RefineMore3 Inst.RefineMore4 Inst.RefineMore5 Inst.RefineMore6 Inst.RefineMore7 Inst.RefineMore8 Inst.RefineMore9 Inst.RefineMore10 Inst.RefineMore11 Inst.RefineMore12.
 Import ListNotations.
 Open Scope nat_scope.
 
@@ -1235,6 +1235,50 @@ Proof.
   vm_compute. repeat split.
 Qed.
 
+(* transform_<a>(x=f, ..., _inplace=True): per-attribute transforms on the existing nested
+   value (same setting as C05_update_nested_refines_partial; `kwfn_ok kn dn`: every transform
+   names a scalar attribute of the nested class whose current value in the nested instance
+   is a proper scalar, f from the pool): applied one after the other on a deep copy of the
+   nested value, which replaces the old one (Inst/RefineMore12.v) *)
+Theorem C05_transform_nested_refines_partial : forall ct h0 l a c d k sp s ln cn dn kn p0 ps,
+  nth_error (heap s) l = Some (OInst c d) -> lookup_cls ct c = Some k -> lookup_attr k a = Some sp ->
+  NoDup (map fst d) -> aok (absv (heap s) (VRef l)) = true ->
+  c_frozen k = false -> no_inval k -> fail_at s = None ->
+  ty_depth (a_ty sp) < FUEL -> ty_is_collection (a_ty sp) = false ->
+  a_prepare sp = None \/ a_prepare sp = Some FId ->
+  closed (length (heap s)) (heap s) ->
+  assoc a d = Some (VRef ln) -> nth_error (heap s) ln = Some (OInst cn dn) -> lookup_cls ct cn = Some kn ->
+  NoDup (map fst dn) -> flat_fields (heap s) dn ->
+  c_dnc kn = false -> c_frozen kn = false -> no_inval kn -> c_post_copy kn = None ->
+  forallb (kwfn_ok kn dn) (p0 :: ps) = true ->
+  let h := mkh [] true true VMissing false None None (p0 :: ps) None in
+  let ah := mkah [] true true AMissing false None None (p0 :: ps) None in
+  match run_helper ct l (HTransform a) h s with
+  | (Ok r, s') => r = VRef l /\
+                  spec_helper ct h0 (absv (heap s) (VRef l)) (STransform a) ah = SOk (absv (heap s') (VRef l)) /\
+                  (forall i, i < length (heap s) -> i <> l -> nth_error (heap s') i = nth_error (heap s) i)
+  | (Err e, s') => spec_helper ct h0 (absv (heap s) (VRef l)) (STransform a) ah = SErr e /\
+                   (forall i, i < length (heap s) -> nth_error (heap s') i = nth_error (heap s) i)
+  end.
+Proof.
+  intros ct h0 l a c d k sp s ln cn dn kn p0 ps Hl Hc Ha Hd Hok Hfz Hni Hfa Hty Hnc Hprep Hclosed
+         Hcur Hn Hcn Hdn Hflatn Hdncn Hfzn Hnin Hpcn Hkws.
+  exact (transform_nested_inplace_refines ct h0 l a c d k sp s ln cn dn kn Hl Hc Ha Hd Hok Hfz Hni Hfa Hty Hnc Hprep Hclosed
+           Hcur Hn Hcn Hdn Hflatn Hdncn Hfzn Hnin Hpcn p0 ps Hkws).
+Qed.
+
+Example C05_example_transform_nested :
+  forallb (kwfn_ok ex_k2 [(1, VInt 7); (3, VInt 9)]) [(1, FAddInt 10); (3, FConst VNone)] = true /\
+  (let '(r, s') := run_helper ex_ct5 1 (HTransform 9)
+                     (mkh [] true true VMissing false None None [(1, FAddInt 10); (3, FConst VNone)] None) ex_state5 in
+   r = Ok (VRef 1) /\ nth_error (heap s') 1 = Some (OInst 9 [(9, VRef 2)]) /\
+   nth_error (heap s') 2 = Some (OInst 2 [(1, VInt 18); (3, VNone)]) /\
+   nth_error (heap s') 0 = nth_error (heap ex_state5) 0) /\
+  spec_helper ex_ct5 [] (absv (heap ex_state5) (VRef 1)) (STransform 9)
+              (mkah [] true true AMissing false None None [(1, FAddInt 10); (3, FConst VNone)] None)
+    = SOk (AInst 9 [(9, AInst 2 [(1, AInt 18); (3, ANone)])]).
+Proof. vm_compute. repeat split. Qed.
+
 Print Assumptions C05_noop_if_false.
 Print Assumptions C05_noop_with_unchanged.
 Print Assumptions C05_noop_update_unchanged.
@@ -1294,3 +1338,5 @@ Print Assumptions C05_setattr_refines_container_partial.
 Print Assumptions C05_example_container.
 Print Assumptions C05_update_nested_refines_partial.
 Print Assumptions C05_example_update_nested.
+Print Assumptions C05_transform_nested_refines_partial.
+Print Assumptions C05_example_transform_nested.
